@@ -24,6 +24,7 @@ pub fn has_method(module: &str, name: &str) -> bool {
         "range" => &["start", "end", "size", "contains"],
         "iterator" => &["next", "to_tuple", "to_list", "count"],
         "number" => &[],
+        "out" => &["get"],
         _ => &[],
     };
     list.contains(&name)
@@ -390,7 +391,7 @@ pub fn call_native(ip: Rc<Interp>, n: Rc<NativeFn>, mut args: Vec<V>, this: Opti
                 }
                 match &args[0] {
                     V::Iter(it) => match iter_next(ip.clone(), it).await? {
-                        Some(v) => Ok(v),
+                        Some(v) => Ok(V::Out(Rc::new(v))),
                         None => Ok(V::Null),
                     },
                     _ => Err(Ctl::Unmodelled("next on non-iterator".into())),
@@ -411,6 +412,10 @@ pub fn call_native(ip: Rc<Interp>, n: Rc<NativeFn>, mut args: Vec<V>, this: Opti
                     _ => V::Int(items.len() as i64),
                 })
             }
+            "out.get" => match args.as_slice() {
+                [V::Out(v)] => Ok((**v).clone()),
+                _ => rt("args"),
+            },
             "koto.unimplemented" => Err(Ctl::Unmodelled("koto.unimplemented called".into())),
             other => Err(Ctl::Unmodelled(format!("native {other}"))),
         }
